@@ -298,7 +298,7 @@ class Ref:
         return cfg is not None and not cfg[0] and cfg[1] is None
 
     # ------------------------------------------------------------------ the step
-    def run(self, cfg, c, nosym=False, probe=False, foreach_first=False, rend_done=False):
+    def run(self, cfg, c, nosym=False, probe=False, foreach_first=False, rend_done=False, each_outer_first=False):
         """process symbol c lazily -> dict(pre=[events], outcome, cfg)
         outcome: ("consumed",) ("fail",) ("term", code) ; with nosym: ("need",) ("end",) ("term", code)"""
         stack, ms, data, last = cfg
@@ -376,8 +376,9 @@ class Ref:
                 raise RefUB(str(x))
 
         def each_char(cbyte):
-            """each-character actions of the enclosing foreach blocks, innermost first"""
-            for fr in reversed(stack):
+            """each-character actions of the enclosing foreach blocks, innermost first (the order among nested foreach blocks is not
+            specified by the reference: each_outer_first is the other reading)"""
+            for fr in (stack if each_outer_first else reversed(stack)):
                 if fr[0] == "foreach":
                     r = do_actions(fr[3], cbyte)
                     if r is not None:
